@@ -1497,6 +1497,25 @@ fn c01(r: &mut Rng, fonts: &[FontInfo], n: u64, tr: &mut Option<std::fs::File>, 
     let mut cnt = Counters::default();
     let mutated_share = arg_u64(args, "--mutated", 30); // percent
     let langs = ["a-é", "é", "x-hbot", "x-hbsc-", "zz-", "-", "en-", "en--us", "\u{1F600}", "x-hbotABCD", "aaaaaaaaaaaaaaaaaaaaaaaaaaaaaaaaaaaaaaaaaaaaaaaaa", "zh-\u{4E2D}", "e\u{301}-x"];
+    // dedicated pass: every AAT font, every ordered pair of (up to six of) its letters repeated 70 and 150 times: state
+    // machines keep per-text stacks (ligature components, marks) of fixed capacity that only a long text fills
+    for fi in fonts.iter().filter(|f| f.has_morx) {
+        let mut letters: Vec<u32> = fi.chars.iter().cloned().filter(|c| (0x61..=0x7A).contains(c) || (0x41..=0x5A).contains(c)).take(6).collect();
+        if letters.len() < 2 {
+            letters = fi.chars.iter().cloned().take(4).collect();
+        }
+        for a in &letters {
+            for b in &letters {
+                for k in [70usize, 150] {
+                    let text: Vec<(u32, u32)> = (0..2 * k).map(|j| (if j % 2 == 0 { *a } else { *b }, j as u32)).collect();
+                    let req = Req { text, flags: 3, ..Default::default() };
+                    trace(tr, &format!("pairs {} [n={}]", fi.path, req.text.len()));
+                    check_c01(&fi.path, &fi.data, &req, &mut cnt);
+                    cnt.bump("aat_repeated_pair_cases");
+                }
+            }
+        }
+    }
     for i in 0..n {
         let fi = &fonts[r.below(fonts.len() as u64) as usize];
         let mut req = gen_req_s(r, fi, 40);
